@@ -20,7 +20,7 @@ BUILTINS = ["pi", "π", "euler", "ℇ", "tau", "τ", "U"]     # ids 0..6, global
 
 # ------------------------------------------------------------------------------------------------ templates
 # item = (kind, bodies...) ; kinds: D, UL, UE, IF, IFE, WH, FOR, GATE, DEF, SW
-LEAVES = ["D", "UL", "UE"]
+LEAVES = ["D", "DI", "UL", "UE"]
 BLOCKS = {"IF": 1, "IFE": 2, "WH": 1, "FOR": 1, "GATE": 1, "DEF": 1, "SW": 2}
 
 
@@ -104,6 +104,11 @@ class Prog:
         start = len(self.toks)
         if k == "D":
             self.t("INT_TY", "int"); s = self.name(); self.t("SEMICOLON", ";")
+            self.events.append(("bind", s, chain[-1], "decl", path, start))
+        elif k == "DI":
+            # `int x = y;` : the initializer is a use that precedes the binding of x (a declaration is not visible in its own initializer)
+            self.t("INT_TY", "int"); s = self.name(); self.t("EQ", "="); u = self.name(); self.t("SEMICOLON", ";")
+            self.events.append(("use", u, tuple(chain), "init", path, start))
             self.events.append(("bind", s, chain[-1], "decl", path, start))
         elif k == "UL":
             s = self.name(); self.t("EQ", "="); self.t("INT_NUMBER", "1"); self.t("SEMICOLON", ";")
@@ -334,13 +339,24 @@ class ScopeHarness:
 
     def walk_item(self, it, st, path, got):
         k = it[0]
-        want = {"D": "DeclareClassical", "UL": "Assignment", "UE": "ExprStmt", "IF": "If", "IFE": "If", "WH": "While", "FOR": "ForStmt",
+        want = {"D": "DeclareClassical", "DI": "DeclareClassical", "UL": "Assignment", "UE": "ExprStmt", "IF": "If", "IFE": "If", "WH": "While", "FOR": "ForStmt",
                 "GATE": "GateDefinition", "DEF": "DefStmt", "SW": "SwitchCaseStmt"}[k]
         if st.v != want:
             raise Violation(f"statement at {path} is {st.v} in the graph, {want} in the source")
         n = st[0]
         if k == "D":
             got[("bind", self.slot_of(path, "decl"))] = res_of(n["name"])
+        elif k == "DI":
+            got[("bind", self.slot_of(path, "decl"))] = res_of(n["name"])
+            init = n["initializer"]
+            if init is None:
+                raise Violation(f"declaration at {path} lost its initializer in the graph")
+            e = init["expression"]
+            while e.v == "Cast":
+                e = e[0]["operand"]["expression"]
+            if e.v != "Identifier":
+                raise Violation(f"initializer at {path} is {e.v}")
+            got[("use", self.slot_of(path, "init"))] = res_of(e[0]) + (None, None)
         elif k == "UL":
             lv = n["lvalue"]
             if lv.v != "Identifier":
